@@ -67,8 +67,12 @@ func genRules(t *rapid.T, tier string) (*World, any) {
 		feat["line-variety"] = true
 	}
 	rf := &RuleFile{Path: p.RulesPath}
-	nr := drawInt(t, 1, 5, "nrules")
-	ids := []string{"942100", "942101", "942110", "942120", "942200", "942210"}
+	maxRules := 5
+	if tier == "thorough" {
+		maxRules = 12
+	}
+	nr := drawInt(t, 1, maxRules, "nrules")
+	ids := []string{"942100", "942101", "942110", "942120", "942200", "942210", "942220", "942230", "942240", "942250", "942260", "942270", "942280"}
 	idComments := chance(t, 12, "idcomments")
 	longNeighbour := chance(t, 8, "longid")
 	type cand struct{ rule, link int }
